@@ -411,7 +411,13 @@ pub fn gen_verify(r: &mut Rng, tag: &str) -> String {
 pub fn gen_two_browses(r: &mut Rng, tag: &str) -> String {
     let links = gen_links(r);
     let mut cmds: Vec<String> = vec![format!("daemon {}", links.daemon), "ipint 0 100000".to_string(), "drop 0".to_string()];
-    let inst = gen_inst(r, 0);
+    let mut inst = gen_inst(r, 0);
+    if r.chance(1, 3) {
+        // a host name with non-ASCII letters, upper-case ones included: the cache keys addresses by
+        // the lower-cased owner name (Unicode lower-casing, as it does for the SRV target).  Only in
+        // these monitor-only histories: the model lower-cases ASCII letters only.
+        inst.host = format!("{}.local.", r.pick(&["Ünit-host", "Éclair", "ДОМ"]));
+    }
     let (name_a, name_b) = match r.below(3) {
         0 => (inst.ty.clone(), format!("_printer._sub.{}", inst.ty)),
         1 => (format!("_printer._sub.{}", inst.ty), inst.ty.clone()),
